@@ -4,9 +4,11 @@ package main
 // harness needs to build and sign transactions (deterministic keys per model account).
 
 import (
+	stded25519 "crypto/ed25519"
 	"crypto/sha256"
 	"encoding/json"
 	"fmt"
+	sdked25519 "github.com/cosmos/cosmos-sdk/crypto/keys/ed25519"
 	"os"
 	"sort"
 	"time"
@@ -116,19 +118,20 @@ func DefaultGenSpec() GenSpec {
 }
 
 type World struct {
-	App     *app.App
-	DB      dbm.DB
-	dbDir   string
-	Gen     GenSpec
-	Accts   map[string]*Acct // by model name, includes "V" the validator's delegator
-	ByAddr  map[string]string
-	Names   []string // model account names in scenario order (without V)
-	ValSet  *tmtypes.ValidatorSet
-	Height  int64 // height of the block in progress or last committed
-	TimeMs  int64 // model time of the current block in ms since T0
-	InBlock bool
-	Halted  bool
-	opts    simtestutil.AppOptionsMap
+	App          *app.App
+	DB           dbm.DB
+	dbDir        string
+	Gen          GenSpec
+	Accts        map[string]*Acct // by model name, includes "V" the validator's delegator
+	ByAddr       map[string]string
+	Names        []string // model account names in scenario order (without V)
+	ValSet       *tmtypes.ValidatorSet
+	Height       int64 // height of the block in progress or last committed
+	TimeMs       int64 // model time of the current block in ms since T0
+	InBlock      bool
+	Halted       bool
+	CommitTimeMs int64
+	opts         simtestutil.AppOptionsMap
 	// pending gov proposals submitted by the harness (ids), informational
 	NextProposal uint64
 	// module addresses
@@ -136,6 +139,8 @@ type World struct {
 	// events of the last ABCI call (for mint/burn observation)
 	lastEvents []abci.Event
 }
+
+var valSeed = sha256.Sum256([]byte("verif-validator"))
 
 var configSet = false
 
@@ -269,7 +274,8 @@ func (w *World) buildGenesis() (app.GenesisState, error) {
 	gs[crisistypes.ModuleName] = cdc.MustMarshalJSON(crisistypes.NewGenesisState(sdk.NewInt64Coin(StakeDen, 1000)))
 
 	// validator
-	pv := mock.NewPV()
+	// deterministic validator key: replicas must start from byte-identical genesis documents
+	pv := mock.PV{PrivKey: &sdked25519.PrivKey{Key: stded25519.NewKeyFromSeed(valSeed[:])}}
 	pk, err := pv.GetPubKey()
 	if err != nil {
 		return nil, err
@@ -440,6 +446,7 @@ func (w *World) Commit() (panicMsg string) {
 	w.App.Commit()
 	w.InBlock = false
 	w.lastEvents = nil
+	w.CommitTimeMs = w.TimeMs
 	return ""
 }
 
@@ -458,7 +465,9 @@ func (w *World) Restart() error {
 	}
 	w.App = w.newApp(w.DB)
 	w.InBlock = false
+	w.Halted = false
 	w.Height = w.App.LastBlockHeight()
+	w.TimeMs = w.CommitTimeMs // the interrupted block is re-proposed with the same header time
 	return nil
 }
 
